@@ -57,6 +57,11 @@ class Function:
                 lst = []
                 for ii, idd in enumerate(b['insts']):
                     ins = Inst(idd, bi, ii, self)
+                    # canonical comparisons: a constant compared with a value is read as the value compared with the constant
+                    # (`LIMIT <= x` and `x >= LIMIT` are one fact for every rule)
+                    if ins.op == 'icmp' and len(ins.ops) == 2 and ins.ops[0][0] in ('c', 'cbig', 'n') and ins.ops[1][0] not in ('c', 'cbig', 'n'):
+                        ins.ops = [ins.ops[1], ins.ops[0]]
+                        ins.pred = {'ult': 'ugt', 'ugt': 'ult', 'ule': 'uge', 'uge': 'ule', 'slt': 'sgt', 'sgt': 'slt', 'sle': 'sge', 'sge': 'sle'}.get(ins.pred, ins.pred)
                     lst.append(ins)
                     self.insts[ins.id] = ins
                 self.blocks.append(lst)
